@@ -169,4 +169,10 @@ def main():
 
 
 if __name__ == "__main__":
-    sys.exit(main())
+    rc = main()
+    # fourth session: the dtype-faithful casts and whole-table frame operations of pyvc/ext_C05_frame.py
+    sys.path.insert(0, os.path.dirname(os.path.abspath(__file__)))
+    import xcheck_ext_C05_frame
+
+    sys.argv = sys.argv[:1] + ["20"]
+    sys.exit(rc or xcheck_ext_C05_frame.main())
